@@ -226,3 +226,15 @@ def cross(sel: List[int]) -> bool:
     if ab != (sel[0] == sel[1]):  # minimal terms of distinct constructors are never equal
         return False
     return not ab or hash(a) == hash(b)
+
+
+def CANDIDATES(func: str):
+    import itertools
+
+    if func == "cross":
+        for a, b in itertools.product(range(14), range(14)):
+            yield [[a, b]]
+    else:
+        for k in range(14):
+            yield [[k] + [0] * (SEL_LEN - 1)]
+            yield [[k, 1, 1, 1] + [0] * (SEL_LEN - 4)]
